@@ -137,8 +137,13 @@ func (_this *BuilderEventReceiver) OnNegativeInt(value uint64) {
 		_this.OnInt(-int64(value))
 		return
 	}
+	if value == 0x8000000000000000 {
+		_this.OnInt(math.MinInt64)
+		return
+	}
 	bi := big.Int{}
 	bi.SetUint64(value)
+	bi.Neg(&bi)
 	_this.OnBigInt(&bi)
 }
 func (_this *BuilderEventReceiver) OnInt(value int64) {
